@@ -11,16 +11,28 @@ class IssuerParameter:
         )
 
     def add_issuer_parameter(self, hook_type: str, response):
-        if self.get_issuer() and response.location:
-            # RFC9207 §2
-            # In authorization responses to the client, including error responses,
-            # an authorization server supporting this specification MUST indicate
-            # its identity by including the iss parameter in the response.
+        if not self.get_issuer():
+            return
 
-            new_location = add_params_to_uri(
-                response.location, {"iss": self.get_issuer()}
+        # RFC9207 §2
+        # In authorization responses to the client, including error responses,
+        # an authorization server supporting this specification MUST indicate
+        # its identity by including the iss parameter in the response.
+        if hasattr(response, "location"):
+            if response.location:
+                response.location = add_params_to_uri(
+                    response.location, {"iss": self.get_issuer()}
+                )
+            return
+
+        # response classes without a ``location`` attribute (e.g. Django's
+        # HttpResponse) expose the header through their ``headers`` mapping
+        headers = getattr(response, "headers", None)
+        location = headers.get("Location") if headers is not None else None
+        if location:
+            headers["Location"] = add_params_to_uri(
+                location, {"iss": self.get_issuer()}
             )
-            response.location = new_location
 
     def get_issuer(self) -> Optional[str]:
         """Return the issuer URL.
